@@ -1276,7 +1276,10 @@ impl Scaler for HarfBuzzScaler<'_> {
                         .points
                         .get(start_point + component_offset)
                         .ok_or(DrawError::InvalidAnchorPoint(glyph_id, component))?;
-                    *base_point - *component_point
+                    // Like FreeType and HarfBuzz, match against the
+                    // component point *after* the component transform has
+                    // been applied (the translation is still zero here).
+                    *base_point - map_point(transform, *component_point)
                 }
             };
             transform[4] = anchor_offset.x;
